@@ -87,6 +87,12 @@ class RefMsg:
     """Reference view of one message."""
     __slots__ = ('conn', 'obj', 'name', 'args', 'news', 'destroyed', 'index', 't_us', 'line')
 
+    @property
+    def orphan(self):
+        # a message on an object whose creation was never seen: the tool cannot tell which connection the object is on
+        # (it matches the connection name `unknown`), so connection-qualified patterns are not decided for it
+        return self.obj[2] is None
+
     def __repr__(self):
         return '<%s %s@%d%s.%s>' % (self.conn, self.obj[0], self.obj[1], letters.word(self.obj[2]), self.name)
 
@@ -385,6 +391,8 @@ def pattern(c, o, n, a):
     explicit = n[2]
 
     def f(m):
+        if m.orphan and c[0] not in ('', '*:'):
+            return None
         if not c[1](m.conn):
             return False
         res = False
@@ -402,6 +410,8 @@ def bare(c, o):
     typelike = o[0] in TYPE_LIKE
 
     def f(m):
+        if m.orphan and c[0] not in ('', '*:'):
+            return None
         if not c[1](m.conn):
             return False
         if any(o[1](t[0]) for t in triples(m)):
